@@ -318,7 +318,7 @@ def cases(ctx: Ctx, search: bool = False):
                 if aug is not None:
                     aug = _small_scan(aug)
                     yield name, "generated-map", aug, gen_ops(rng.fork(name + "-augops"), _n_actions(aug), ctx.scale(8, 18), aug["game"]["seed"], 0,
-                                                              short=(not ctx.thorough and not stochastic))
+                                                              short=not ctx.thorough)
     # the same scenarios with every optional process-wide section left out (played after a history that set them)
     if not search:
         for name in (["data_manipulation"] if not ctx.thorough else ["data_manipulation", "uc7_config", "action_penalty", "shared_rewards",
@@ -347,7 +347,7 @@ def cases(ctx: Ctx, search: bool = False):
             cfg = tap_variant(base, r)
             cfg["game"]["seed"] = r.range(2, 10 ** 6)
             yield name, f"stochastic-tap-{i}", cfg, gen_ops(r, _n_actions(cfg), ctx.scale(10, 20), cfg["game"]["seed"], ctx.scale(0, 1),
-                                                            short=(not ctx.thorough and not stochastic))
+                                                            short=(not ctx.thorough and name != "uc7_config"))
     for i in range(ctx.scale(1, 4) if not search else 2):
         r = rng.fork(f"generated-{i}")
         try:
@@ -358,7 +358,7 @@ def cases(ctx: Ctx, search: bool = False):
             continue
         cfg["game"]["seed"] = r.range(2, 10 ** 6)
         yield "generated", f"random-agent+nmap+db+web-{i}", cfg, gen_ops(r, _n_actions(cfg), ctx.scale(8, 14), cfg["game"]["seed"], ctx.scale(0, 1),
-                                                                         short=(not ctx.thorough and not stochastic))
+                                                                         short=False)
 
 
 def choose_hashseeds(ctx: Ctx, rng: Rng, cfgs: List[Dict], n: int) -> Tuple[List[int], Dict]:
